@@ -302,14 +302,9 @@ func (X *Exec) evalClauseRenamed(fr *Frame, st *State, c *Clause, extra map[stri
 		cl.Expr = renameIdent(c.Expr, missing, alt)
 		func() {
 			defer func() {
-				if r := recover(); r != nil {
-					if _, ok := r.(specErr); ok {
-						return
-					}
-					panic(r)
-				}
+				_ = recover() // a local of another type in that role does not fit (spec error or a sort clash)
 			}()
-			alts = append(alts, X.evalClause(fr, st, &cl, extra))
+			alts = append(alts, X.evalClause(fr, st.Clone(), &cl, extra))
 		}()
 	}
 	if len(alts) == 0 {
